@@ -1,4 +1,4 @@
-SERVED = ["C06", "C08", "C13", "C16", "C17", "C18", "C19", "C20"]
+SERVED = ["C06", "C08", "C13", "C14", "C16", "C17", "C18", "C19", "C20"]
 HOOKS = {
     "guard": "PSYCHEC_VERIF",
     "enable": "harness/Makefile compiles /repo's sources with -DPSYCHEC_VERIF into /verif/.cache/build-<flavour>/; "
@@ -117,5 +117,18 @@ CHECKS = {
         "note": "Trusted: Coq kernel; hand transcription C19Model.v; extraction; the harness' diag request mirroring Driver::runCFrontEnd's ParseOptions; gcc as external preprocessor for the few -pp s/r runs. "
                 "Plug-in loading and sub-command execution are oracles of the model. 'Never terminates by a signal' is observed, not proved.",
         "technique": "Coq proof over a driver model (decision logic as implications, finite cross product by vm_compute) + end-to-end correspondence with the real executable",
+    },
+    "C14": {
+        "text": "Theorems for EVERY tree shape (mutual induction; null children, null list entries, missing tokens, empty lists included): C14_extent_is_hull — the model of "
+                "firstToken()/lastToken()/findValidToken and of the lists' firstToken()/lastToken() returns the first and the last token slot in order, and a valid one whenever the node "
+                "owns a token; under the parser's obligation that slots increase in order: C14_extent_encloses, C14_nesting (a child's extent lies within its parent's), "
+                "C14_siblings_ordered (no overlap, source order).  C14_child_lists (reflective, regenerated from the node headers each run): every class's child list names no member twice "
+                "and names every token/node/list member it declares.  Tie: every tree dumped from the implementation (the repository's 1,166 test snippets, concatenations, token-level mutants; "
+                "disambiguation modes) is fed to the extracted model and every node's extent compared; slots-increasing, enclosure, visit-exactly-once (counting visitor vs an independent "
+                "enumeration through child lists and next links), only-this-tree and family downcasts are checked on every node.",
+        "design_ref": "DESIGN.md section 6, C14",
+        "note": "Trusted: Coq kernel incl. vm_compute; hand transcription C14Model.v; regex-based schema extraction translate/schema.py; extraction; harness (tree.h knows the 14 list instantiations). "
+                "The traversal protocol (Visit/Skip/Quit) is not modelled: visit-once is correspondence only. Print Assumptions: closed under the global context.",
+        "technique": "Coq proof by mutual structural induction over arbitrary trees + reflective check of the regenerated class schema + per-node correspondence",
     },
 }
